@@ -7,7 +7,7 @@ TRUSTED_BASE = [
     "all Rust code is modelled by hand, not verified directly; 64-bit usize assumed",
 ]
 
-HOOK_COMMITS = []
+HOOK_COMMITS = ["df32574"]
 NOT_APPLICABLE = {}
 
 PROPS = {
@@ -34,6 +34,8 @@ PROPS = {
 
     "C05": {
         "inventory": True,
+        "probes": [{"class": "compute_breadth_allocation", "cmd": "probe-compute-breadth", "mem_kb": 3000000, "timeout": 60,
+                    "what": "PUSH 2^40; COM; COME under a gas limit of 1000 aborts the process on allocation (rayon collects one result per child)"}],
         "level_text": 'Coq theorems by induction over all 62 ops and over exec (fuel induction, Compute children included): from any state satisfying the invariant (stack<=4096, memory<=10240, repeat<=4096, depth<=1, all words i64) every step and every execution preserves the invariant and never reaches a modelled panic/overflow site (unchecked +=, expect, indexing are explicit Panic outcomes in the model). Correspondence in two build profiles (overflow checks off/on) incl. limit sweeps that expose the state after every executed op.',
         "properties": "Properties/C05",
         "corr": ["Corr/RunVm"],
@@ -164,5 +166,65 @@ PROPS = {
                 "permutations, 3-7 tamperings (salt bit, added edge/node, dropped/added predicate, program address bit, signature bit), 11 recovery ids, "
                 "sign::encode of key and signature, and the VM op executed on words4(address) ++ encoded signature",
         "assumes": ["secp256k1 ECDSA recover(sign(sk, h)) = pk(sk) (hypothesis of the theorems; sampled by the correspondence)", "unforgeability and collision resistance are cryptographic assumptions, not claimed"],
+    },
+    "C01": {
+        "level_text": "Coq theorems about the code-shaped model of the predicate-graph checker and an independent reference semantics (Spec/GraphRef.v): the level sort succeeds exactly on acyclic graphs, lists every node once with every edge going to a strictly later level, and never panics or runs out of fuel; malformed or cyclic graphs are rejected with the invalid-graph error before a single program is run; every node is run exactly once after all its parents on exactly the concatenation of their outputs in ascending parent order (nothing dropped by the filter_map); the verdict, gas and data outputs equal the reference; the first reported failing node is a genuine failure; the verdict, gas and data are invariant under renumberings that keep the order of co-parents; the two run modes over a shared cache evaluate each node exactly once. Correspondence: random DAGs with non-topological numberings, multi-edges, diamonds, raw malformed/cyclic/dangling encodings, 1-3 solutions, both collect_all values; the run recorder hook reports every program run with its inputs; the reference semantics is evaluated against the implementation's verdict, gas, returned set and runs.",
+        "properties": "Properties/C01",
+        "corr": ["Corr/RunGraph"],
+        "engines": [{"engine": "graph", "quick": 900, "thorough": 20000}],
+        "rule": "abstract random DAGs of 1..8 nodes numbered with non-leaves first in arbitrary (usually non-topological) order, multi-edges, "
+                "reversed child lists; raw random edge_start/edges vectors (overlapping ranges, leaves in the middle, invalid ranges, cycles, "
+                "self loops, dangling targets); node programs: constants, pass-through, memory producers, pre/post/extern state readers, "
+                "failing nodes, fold-check leaves, data-output leaves (valid and invalid encodings), post-check leaves; non-trivial = at least 2 program runs",
+        "assumes": ["node programs run with unlimited gas: OutOfFuel of the model is allowed (DESIGN.md section 10)", "graphs have at most 65535 nodes (u16 casts)"],
+    },
+    "C02": {
+        "inventory": True,
+        "level_text": "Coq theorems on an interleaving model of rayon's indexed parallel sections (Check/Par.v): for every complete schedule, any number of workers and any assignment, the slot vector equals the sequential map; the OnceLock cache is benign (its initialiser is a pure function of the immutable solution list); failures partitioned by index and the Compute children's 'some child failed' projection are schedule independent although which child error rayon returns is not; instantiated on the sequential models so that exec, check_set_predicates, check_and_compute and two_pass under arbitrary schedule oracles equal the sequential models. Tie to the code: a shared-state inventory of check/vm sources (only the OnceLock), and the implementation run under thread pools of 1,2,3,4,8,16 workers with jittered task timing, compared with each other and with the sequential model. Partial: the interleavings of rayon and the OS are sampled, not enumerated.",
+        "properties": "Properties/C02",
+        "corr": ["Corr/RunGraph", "Corr/RunVm"],
+        "engines": [
+            {"engine": "sched", "quick": 250, "thorough": 6000},
+            {"engine": "vm", "name": "vm_pool1", "quick": 250, "thorough": 5000, "env": {"RAYON_NUM_THREADS": "1"},
+             "args": ["--families", "compute", "--evals", "vm_mismatches,sem_failures", "--gas"]},
+            {"engine": "vm", "name": "vm_pool16", "quick": 250, "thorough": 5000, "env": {"RAYON_NUM_THREADS": "16"},
+             "args": ["--families", "compute", "--evals", "vm_mismatches,sem_failures", "--gas"]},
+        ],
+        "rule": "every graph case is executed under rayon pools of 1,2,3,4,8,16 workers with pseudo-random delays injected through the program "
+                "lookup; the six results (verdict, indices, gas, set, multiset of runs) must be identical, one of them is compared with the "
+                "sequential model and the reference; Compute cases run with 1 and 16 workers",
+        "assumes": ["tasks are pure functions of immutable inputs (checked by the shared-state inventory)", "rayon delivers indexed results by index"],
+    },
+    "C03": {
+        "level_text": "Coq theorems: find_deferred is exactly reachability from the nodes whose bytecode contains a post-state read (= the reference's ancestors-or-self), for any numbering; the two passes partition the nodes (Outputs never evaluates a deferred node, Checks only deferred ones) and should_cache is 'not deferred with a deferred child'; next_key is the numeric successor of the key as a big-endian number with None exactly at the maximal key; read_or_fallback returns, key by key over the successor range, the last proposed value for (contract, key) else the pre-state value, passes the request through unchanged for contracts without proposals, and is well defined and order independent when each slot is proposed once; KeyRange ops depend only on the pre view and PostKeyRange ops only on the post view. Correspondence: the hook exposes read_or_fallback and next_key (keys around word carries and the maximal key, ranges straddling mutated/deleted/untouched keys, huge counts) and whole two-pass runs with readers at every graph position.",
+        "properties": "Properties/C03",
+        "corr": ["Corr/RunGraph"],
+        "engines": [{"engine": "post", "quick": 1200, "thorough": 30000},
+                    {"engine": "graph", "name": "graph03", "quick": 500, "thorough": 10000}],
+        "rule": "post engine: keys of 0..3 words from {MIN,-1,0,1,2,5,MAX-1,MAX,7} and their successor neighbourhoods, three contracts (one never "
+                "has proposals), proposals incl. deletions and re-proposals, counts 0,1,2..8,5000 and isize::MAX near the maximal key; graph engine: "
+                "pre/post/extern readers at random graph positions with declared and computed mutations",
+        "assumes": ["the StateRead implementation is range-consistent (the harness state walks successor keys)", "counts above 10241 are capped in the model: such a result cannot fit the VM memory"],
+    },
+    "C20": {
+        "inventory": True,
+        "level_text": "Coq theorems on an interleaving model of StdLock::apply (acquire / finish with the guard alive across the closure): mutual exclusion, serialisability (the log is a serial chain in acquisition order, final value = fold of the closures), no lost update for counters with pairwise distinct results, per-thread program order, deadlock freedom for non-reentrant closures, the several-locks projection, soundness and completeness of the history checker, and a refuted broken variant that loses an update. Tie to the code: histories of real OS threads (2..16) applying read-modify-write closures of varying duration, and the CURRENT source text of crates/lock compiled against shuttle's Mutex and explored under random, PCT and bounded-DFS schedulers; every history is checked by the model's checker inside Coq (a sample) and in the harness (all). Partial: std::sync::Mutex and the OS scheduler are runtime.",
+        "properties": "Properties/C20",
+        "corr": ["Corr/RunLock"],
+        "engines": [{"engine": "lock", "quick": 150, "thorough": 1500}],
+        "rule": "OS threads: 2,3,4,8,16 threads x 1..12 closures with spin/yield durations 0..5000 and a two-field datum to detect tearing; shuttle: "
+                "3x2 and 4x2 closures under random and PCT schedulers, 2x2 under bounded DFS (2500 schedules each quick, 60000 thorough); a history is "
+                "non-trivial when at least two closures ran",
+        "assumes": ["closures neither panic (poisoning) nor re-enter apply"],
+    },
+    "C04": {
+        "level_text": "Coq theorems: the set's content address and the verdict of set validation are invariant under permutation of the solutions; acceptance guarantees unique keys per solution only - the whole-set statement is refuted with a concrete accepted witness on which the post-state depends on the order (known finding F10); for sets whose (contract, key) slots are pairwise distinct the proposed value of every slot and the whole post-state view read by the second pass are order independent. Partial: the lift of order independence to the complete two-pass result (verdict, gas, computed mutations per solution) is decided by the correspondence, which runs content_addr, check_set and the two-pass check on ALL permutations of generated sets of 1..3 solutions (shared and distinct contracts, overlapping keys) and compares them.",
+        "properties": "Properties/C04",
+        "corr": ["Corr/RunGraph"],
+        "engines": [{"engine": "perm", "quick": 500, "thorough": 12000}],
+        "rule": "sets of 1..3 solutions over two contracts with declared and computed mutations from a shared key pool, all 1/2/6 permutations "
+                "each through content_addr, check_set and check_and_compute_solution_set_two_pass; sets in which two solutions of one contract "
+                "propose a value for the same key are the known finding F10 and are reported as such; non-trivial = at least two solutions",
+        "assumes": ["claimed outside the class of known finding F10 (cross-solution proposals for one slot)"],
     },
 }
